@@ -229,6 +229,48 @@ func (g *keyArgs) N(t *rapid.T, root, method string) int             { return ra
 
 // keysOfWalk lists the argument strings passed to methods whose name matches a spec
 // argument of type "key" for this command.
+// specKeyOddities: argument names that the spec types as key in one place and as something else in another, and
+// builder methods that come from enum literals of the form "WORD key" (the generator gives them a key parameter).
+func specKeyOddities(c specCmd) (ambiguous, enumKeys map[string]bool) {
+	ambiguous, enumKeys = map[string]bool{}, map[string]bool{}
+	asKey, asOther := map[string]bool{}, map[string]bool{}
+	var rec func(args []specArg)
+	rec = func(args []specArg) {
+		for _, a := range args {
+			names, types := anyStrings(a.Name), anyStrings(a.Type)
+			for i, n := range names {
+				if i < len(types) && types[i] == "key" {
+					asKey[normName(n)] = true
+					// a key argument introduced by a token is built by a method named after the token
+					// (SORT ... STORE destination -> Store(destination), MIGRATE ... KEYS key... -> Keys(key...))
+					if f := strings.Fields(a.Command); len(f) > 0 {
+						enumKeys[normName(strings.Join(f, ""))] = true
+					}
+					if f := strings.Fields(a.Token); len(f) > 0 {
+						enumKeys[normName(strings.Join(f, ""))] = true
+					}
+				} else if i < len(types) && types[i] != "block" && types[i] != "oneof" {
+					asOther[normName(n)] = true
+				}
+			}
+			for _, e := range a.Enum {
+				if f := strings.Fields(e); len(f) == 2 && f[1] == "key" {
+					enumKeys[normName(f[0])] = true
+				}
+			}
+			rec(a.Block)
+			rec(a.Arguments)
+		}
+	}
+	rec(c.Arguments)
+	for n := range asKey {
+		if asOther[n] {
+			ambiguous[n] = true
+		}
+	}
+	return
+}
+
 func keysOfWalk(w walkResult, keyNames map[string]bool) (keys []string) {
 	for i, s := range w.Steps {
 		if i == 0 {
@@ -285,6 +327,18 @@ func TestVerif_C18_Walk(t *testing.T) {
 		var keyNames map[string]bool
 		if ok {
 			keyNames, _, _ = specInfo(sc)
+			ambiguous, enumKeys := specKeyOddities(sc)
+			for m := range enumKeys {
+				keyNames[m] = true // e.g. GEORADIUS ... "STORE key": the builder's Store(key) takes a key
+			}
+			for _, st := range w.Steps[min(1, len(w.Steps)):] {
+				if ambiguous[normName(st.Method)] {
+					// the spec uses this argument name both for a key and for a plain string (AI.SCRIPTEXECUTE key / KEYS n key...):
+					// the method name does not tell which one the walk passed
+					c.Eval(false, nil, "ambiguous-key-name")
+					return
+				}
+			}
 		}
 		if w.Panic == multiKeySlotErr {
 			if !cluster {
